@@ -314,14 +314,18 @@ class BinningConfig(BaseConfig, Immutable):
             This cosmology object is not stored with this instance, but should
             be managed by the top level :obj:`~yaw.Configuration` class.
         """
+        if edges is NotSet and self.is_custom:
+            if all(param is NotSet for param in (zmin, zmax, num_bins, method)):
+                edges = self.edges  # no new binning requested, keep the edges
+
         if edges is NotSet:
-            if method == "custom":
-                raise ConfigError("'method' is 'custom' but no bin edges provided")
             the_dict = dict()
             the_dict["zmin"] = self.zmin if zmin is NotSet else zmin
             the_dict["zmax"] = self.zmax if zmax is NotSet else zmax
             the_dict["num_bins"] = self.num_bins if num_bins is NotSet else num_bins
             the_dict["method"] = self.method if method is NotSet else BinMethod(method)
+            if the_dict["method"] == BinMethod.custom:
+                raise ConfigError("'method' is 'custom' but no bin edges provided")
 
         else:
             the_dict = dict(edges=edges)
